@@ -470,7 +470,7 @@ impl Property for C03 {
                 let mut fired = 0;
                 let mut hard = false;
                 for e in &events {
-                    out.ev_str(&format!("{}{} {} {}", e.op, e.tok, e.asked, e.result));
+                    out.ev_str(&e.digest_text());
                     if let Some(name) = e.fault_name() {
                         out.fault(&name);
                         fired += 1;
